@@ -54,6 +54,10 @@ type faultStore struct {
 	readsFailed             atomic.Int64
 	onReadFail              func()
 	readHook                func(n int64)
+	// getFailKey (if set) is asked for every Get / Has with the key; true = this read fails
+	getFailKey func(key []byte) bool
+	// onReadFailKey (if set) is told the key of every Get / Has that an injected fault made fail
+	onReadFailKey func(key []byte)
 }
 
 // touch records store activity (used to tell a hung migration from a slow one).
@@ -72,9 +76,24 @@ func (s *faultStore) readFault(n, at int64, all bool) bool {
 	return false
 }
 
+// keyFault: the key-selected read fault (counts like a positional one).
+func (s *faultStore) keyFault(key []byte) bool {
+	if s.getFailKey == nil || !s.getFailKey(key) {
+		return false
+	}
+	s.readsFailed.Add(1)
+	if s.onReadFail != nil {
+		s.onReadFail()
+	}
+	return true
+}
+
 func (s *faultStore) Has(key []byte) (bool, error) {
 	s.touch()
-	if s.readFault(s.reads.Add(1), s.getFailAt, s.getFailAll) {
+	if s.readFault(s.reads.Add(1), s.getFailAt, s.getFailAll) || s.keyFault(key) {
+		if s.onReadFailKey != nil {
+			s.onReadFailKey(key)
+		}
 		return false, errInjectedRead
 	}
 	return s.Database.Has(key)
@@ -117,7 +136,10 @@ func (s *faultStore) Get(key []byte, cb func([]byte) error) error {
 	if s.readHook != nil {
 		s.readHook(n)
 	}
-	if s.readFault(n, s.getFailAt, s.getFailAll) {
+	if s.readFault(n, s.getFailAt, s.getFailAll) || s.keyFault(key) {
+		if s.onReadFailKey != nil {
+			s.onReadFailKey(key)
+		}
 		return errInjectedRead
 	}
 	return s.Database.Get(key, cb)
